@@ -5,15 +5,26 @@ ID = "C05"
 LEVEL = "exploration"
 RUNS = {"quick": 6000, "thorough": 100000}
 WALL_CAP = {"quick": 200, "thorough": 3600}
-RULE = ("same workload as C04 (topologies x ball counts x game-action histories x physical eject outcomes); oracle: bounded "
-        "liveness after faults stop - devices return to idle within 3x the timeout chain, nothing is still owed to a target "
-        "while a source holds a ball, every physically failed eject was retried or reported. Non-trivial = reached a probe; "
-        "distinct = distinct sequence of observed event kinds")
+RULE = ("one case = one of eleven machine topologies (t1 trough+coil plunger, t2 +two-ball lock and a multiball with ball_locks, "
+        "t3 +entrance-counted VUK, t4 mechanical plunger (optionally home-tagged with a ball in the lane at boot, weak plunges), "
+        "t5 +ball saves (machine-wide, or mode-scoped with delayed eject), t6 two independent feeds, t7 three-stage chain with "
+        "requests for the staging device and balls straying to the playfield, t8 two-ball launcher, t9 outhole + "
+        "entrance-counted trough whose last ball rests on the entrance switch, t10 jam-switch trough with shaken balls and "
+        "reorder pulses) with 1-4 balls, a swarm-drawn eject failure rate and scheduler knobs, and a history of game "
+        "actions (start, drain, pairs of drains, playfield hit, multiball add, requests for several balls, lock shot/release, "
+        "manual plunge, lane return, mode start/stop, end game) with tape-chosen timing, plus reactive requests a moment "
+        "after a kick and handlers holding the trough's eject-attempt queue event; the physical world (PinWorld) answers coil "
+        "commands with success / fall-back / stuck / late arrival / shaken / stray. Non-trivial = reached a probe (drain, "
+        "multiball add, physical eject failure, lock shot, ...); distinct = distinct sequence of observed event kinds")
 PROBES = common.PROBES
 REAL = ["mpf.devices.ball_device.* (counters, incoming/outgoing handlers, ejectors)", "mpf.devices.playfield", "mpf.core.ball_controller",
         "mpf.modes.game", "mpf.core.switch_controller", "mpf.devices.driver", "MachineController boot"]
 STUBS = ["physical machine (sim/pinworld.py)", "platform leaf objects (SimPlatform/SimDriver)", "event loop/clock (SimLoop)"]
-ASSUMPTIONS = ["PinWorld rules (module docstring); host stalls limited to 0.2 s; in the two-feed topology a queued request is only "
+ASSUMPTIONS = [
+               "further named relaxations (DESIGN.md, Corrections, C04/C05 items 5-19): arrival, identity, settle and re-plunge "
+               "ambiguity, skip assumption of mechanical lanes, playfield confirmation, entrance arrival during the device's own "
+               "eject, starved devices, requests only while a ball is in progress",
+               "PinWorld rules (module docstring); host stalls limited to 0.2 s; in the two-feed topology a queued request is only "
                "held against MPF when a ball sits upstream of the requesting device", "liveness is judged only after faults stop, bound = 3 x sum of eject and "
                "ball-missing timeouts of the topology + 30 s", "a broken device (max_eject_attempts exhausted) is excluded, per statement"]
 STATE_ABSTRACTION = "(topology, per-device (balls, state), playfield.balls, game running)"
